@@ -10,7 +10,7 @@ from typing import Any, Dict, List, Optional, Tuple
 from ..dofsym import KINDS
 from ..interp import (Arr, Interp as _Interp, Obj, Opaque, PyFunc, Raised,
                       SymInt, Unsupported, Bound)
-from ..model import staged, AnalysisError, Model, src
+from ..model import staged, AnalysisError, Model, src, walk_no_nested
 from ..poly import Poly
 
 PID = "C07"
@@ -671,6 +671,87 @@ def _dispatch(model, rep):
        cf.lineno, path)
 
 
+def _conditional_attributes(model, rep):
+    """A basis built with the documented option disable_doflocs=True (or
+    whose location computation failed inside the constructor's try) has no
+    attribute 'doflocs'.  The DOF query needs no locations: it must not read
+    an attribute the constructor assigns only conditionally, except through
+    getattr(..., default) / hasattr.  Definite-assignment check over
+    AbstractBasis.__init__ and every method of the query path."""
+    R4 = "C07-R4"
+    bcls = model.cls("skfem.assembly.basis.abstract_basis", "AbstractBasis")
+    init = bcls.methods["__init__"]
+
+    def stores(stmts, cond):
+        out = {}
+        for st in stmts:
+            if isinstance(st, (ast.If, ast.Try, ast.For, ast.While,
+                               ast.With)):
+                inner = []
+                for fld in ("body", "orelse", "handlers", "finalbody"):
+                    for x in getattr(st, fld, []):
+                        inner += x.body if isinstance(
+                            x, ast.ExceptHandler) else [x]
+                for k, v in stores(inner, True).items():
+                    out[k] = out.get(k, True) and v
+                if isinstance(st, ast.If):
+                    # assigned on both branches -> unconditional
+                    a = stores(st.body, False)
+                    b = stores(st.orelse, False)
+                    for k in set(a) & set(b):
+                        if not a[k] and not b[k] and not cond:
+                            out[k] = False
+            else:
+                for n in ast.walk(st):
+                    if isinstance(n, (ast.Assign, ast.AnnAssign,
+                                      ast.AugAssign)):
+                        tg = n.targets if isinstance(n, ast.Assign) \
+                            else [n.target]
+                        for t in tg:
+                            for x in (t.elts if isinstance(t, ast.Tuple)
+                                      else [t]):
+                                if isinstance(x, ast.Attribute) and \
+                                        isinstance(x.value, ast.Name) and \
+                                        x.value.id == "self":
+                                    out[x.attr] = out.get(x.attr, True) \
+                                        and cond
+        return out
+    st = stores(init.node.body, False)      # attr -> only conditionally?
+    conditional = {a for a, c in st.items() if c}
+    if "doflocs" not in st:
+        raise AnalysisError("AbstractBasis.__init__ no longer assigns "
+                            "doflocs")
+    n = 0
+    for meth in ("get_dofs", "find_dofs", "complement_dofs", "split",
+                 "split_indices"):
+        fn = bcls.methods.get(meth)
+        if fn is None:
+            continue
+        n += 1
+        bad = []
+        for x in walk_no_nested(fn.node):
+            if isinstance(x, ast.Attribute) and isinstance(
+                    x.value, ast.Name) and x.value.id == "self" and \
+                    x.attr in conditional and isinstance(x.ctx, ast.Load):
+                bad.append(x)
+        cons = f"AbstractBasis.{meth}:definitely-assigned"
+        if bad:
+            rep.fail(R4, fn.path, f"AbstractBasis.{meth}", cons,
+                     f"reads self.{bad[0].attr}, which the constructor "
+                     f"assigns only conditionally (not with "
+                     f"disable_doflocs=True, not when the location "
+                     f"computation fails): every form of the query raises "
+                     f"AttributeError on such a basis although the "
+                     f"numbering is the same and no locations are needed "
+                     f"(use getattr(self, '{bad[0].attr}', None))",
+                     bad[0].lineno)
+        else:
+            rep.ok(R4, cons, "reads only attributes the constructor always "
+                             "assigns (or guards the read)")
+    if n < 2:
+        raise AnalysisError("DOF query methods not found")
+
+
 def _predicates(model, rep):
     """callable selectors and tagging: midpoints of the right entities,
     optional restriction to the boundary, names stored as given"""
@@ -806,7 +887,8 @@ def run(model: Model, rep, tier: str) -> None:
              "selector pass-through / tag lookup, complement")
     staged(lambda: _queries(model, rep), lambda: _names_to_rows(model, rep),
            lambda: _view_methods(model, rep), lambda: _dispatch(model, rep),
-           lambda: _predicates(model, rep))
+           lambda: _predicates(model, rep),
+           lambda: _conditional_attributes(model, rep))
     from ..dgspace import report as _dg_report
     _dg_report(model, rep, "C07-R4", lambda n: n.endswith("_satisfying"),
                "the predicate is evaluated at garbage midpoints and the "
@@ -822,6 +904,10 @@ _D = "skfem/assembly/dofs.py"
 _AB = "skfem/assembly/basis/abstract_basis.py"
 _M = "skfem/mesh/mesh.py"
 MUTANTS = [
+    ("DOF query reads the optional location table directly",
+     ("skfem/assembly/basis/abstract_basis.py",
+      "        doflocs = getattr(self, 'doflocs', None)\n",
+      "        doflocs = self.doflocs\n"), "C07-R4"),
     ("vertex predicate evaluated on all stored points",
      ("skfem/mesh/mesh.py", "        p = self.p[:, :self.nvertices]\n",
       "        p = self.p\n"), "C07-R4"),
